@@ -4,6 +4,8 @@ SPEC = {
     "pkg": "c09",
     "tests": [
         {"name": "TestWire", "quick": 480, "thorough": 32000, "shards_quick": 8, "shards_thorough": 16, "timeout": 2400},
+        # vf.Batch: the case count per process is fixed in the test (quick 4, thorough 16, all at the same time)
+        {"name": "TestKeepAliveGaps", "quick": 12, "thorough": 96, "shards_quick": 3, "shards_thorough": 6, "timeout": 1200},
     ],
     "rule": ("rapid-generated ammo models (internal/ammogen: four formats, all layout knobs, in-file directives) x provider `headers` "
              "lists whose names overlap / do not overlap the entries' headers (incl. Host) x ssl on/off x disable-keep-alives x 1-4 "
@@ -16,7 +18,16 @@ SPEC = {
              "discard aggregator, once profiles) is built from a config map by "
              "config.DecodeAndValidate and run by the real engine against in-process recording HTTP, HTTPS and h2 servers; connections are "
              "counted at the target (distinct connections that carried a request, and the accept / TLS-handshake counter). Non-trivial = "
-             "a configured header name also defined by an entry, or Host given by the ammo, or >= 2 instances; distinct = hash of the case."),
+             "a configured header name also defined by an entry, or Host given by the ammo, or >= 2 instances; distinct = hash of the case. "
+             "TestKeepAliveGaps: the keep-alive clause with instances that PAUSE between their requests: load profiles that leave every "
+             "instance idle for 1.1-2.5 s between two shots (once-bursts separated by zero-rate const sections, for the pool or - "
+             "rps-per-instance - for every instance; or a const profile of 1/pause ops per instance), 1-3 instances, http / connect / "
+             "http2 guns, ssl on/off, every answer kind, keep-alives off in one case of six; the transport options are left at their "
+             "defaults or written (idle-conn-timeout: default 90s, or 30s / 90s / 5m / 0 = no limit - never below 30 s; "
+             "tls-handshake-timeout, expect-continue-timeout, response-header-timeout, dial.timeout, max-idle-conns-per-host: default "
+             "or written, the short ones <= 1 s, i.e. shorter than every pause); each case has a recording target of its own that "
+             "never closes a connection, the cases of a process run concurrently (vf.Batch). Non-trivial there = the target saw two "
+             "successive requests on ONE connection more than 1.05 s apart."),
     "floors": {"TestWire/config_header_overlaps_ammo": 0.2, "TestWire/overlap_uri": 0.03, "TestWire/overlap_uripost": 0.03,
                "TestWire/overlap_raw": 0.03, "TestWire/overlap_jsonline": 0.03, "TestWire/ssl": 0.3, "TestWire/keep_alive_off": 0.1,
                "TestWire/host_from_ammo": 0.2, "TestWire/instances_ge_2": 0.4,
@@ -25,7 +36,11 @@ SPEC = {
                "TestWire/http2_keep_alive_more_requests_than_instances": 0.02, "TestWire/connect_gun": 0.05, "TestWire/http_gun": 0.4,
                "TestWire/target_by_name": 0.16, "TestWire/target_by_name_host_defaulted": 0.1,
                "TestWire/target_by_name_host_defaulted_ssl": 0.055, "TestWire/target_by_name_host_defaulted_http2": 0.018,
-               "TestWire/target_by_name_dns_cache_off": 0.04, "TestWire/target_ip_literal_host_defaulted": 0.25},
+               "TestWire/target_by_name_dns_cache_off": 0.04, "TestWire/target_ip_literal_host_defaulted": 0.25,
+               "TestKeepAliveGaps/connection_reused_after_pause_gt_1s": 0.3,
+               "TestKeepAliveGaps/reused_after_pause_idle_conn_timeout_default": 0.12,
+               "TestKeepAliveGaps/reused_after_pause_idle_conn_timeout_written": 0.12,
+               "TestKeepAliveGaps/reused_after_pause_ssl": 0.08, "TestKeepAliveGaps/instances_ge_2": 0.25},
     "manifest": {
         "technique": "model-based property testing (rapid): generated ammo + gun config run through the real engine against a recording target; multiset/sequence comparison with the model",
         "text": ("The multiset of requests the target received must equal the model: method, request URI, body, every ammo header, a "
@@ -34,7 +49,9 @@ SPEC = {
                  "headers only from the set Go's transport adds; with one instance the sequence equals file order; connections <= "
                  "instances with keep-alive, one per request without - for the http, connect and http2 guns alike, judged both by the "
                  "connections the requests arrived on and by the number of connections the target accepted; an http2 gun's "
-                 "requests arrive as HTTP/2.0."),
+                 "requests arrive as HTTP/2.0. TestKeepAliveGaps: the same two connection clauses when the instances pause for 1.1-2.5 s "
+                 "between their requests (far below the documented idle-conn-timeout of 90 s): connections seen by the target <= instances "
+                 "with keep-alives, one per request without; every operation of the profile arrives as one request."),
         "note": ("Servers are Go httptest servers (HTTP/1.1, optional TLS; TLS + h2 for the http2 gun); configured header names are unique; entries carry no "
                  "Connection header; the server never closes idle connections during a case. Over HTTP/2 a Cookie header with an "
                  "empty value may be absent (the protocol sends one field per cookie pair). With a target given by name and "
